@@ -1,6 +1,216 @@
-//! C15 monitor (not built yet)
-use vcore::{Args, Report};
+//! C15 — an unvalidated address never receives more than 3x what it sent.
+//!
+//! The wire monitor inside SimNet keeps, for the server endpoint and the client's address, the
+//! bytes delivered *from* that address and the bytes the server sent *to* it.  The address counts
+//! as validated from the moment an intact client datagram containing a Handshake packet (or an
+//! Initial with a non-empty token) was delivered to the server: the long-header type bits and the
+//! Length field are not header-protected, so the monitor can see this on the wire without keys.
+//! Until then `sent <= 3 * received` must hold after every single server send.
+use std::{
+    sync::{Arc, Mutex},
+    time::Duration,
+};
 
-pub fn run(_args: &Args, rep: &mut Report) {
-    rep.inconclusive("monitor not built yet");
+use serde_json::{Value, json};
+use vcore::{Args, Report, Rng};
+
+use crate::{
+    scenario::{self, Job, JobKind, ParamCfg, Spec},
+    sim::{Fate, FaultProfile},
+    world::{LogMode, client_addr, server_addr},
+};
+
+#[derive(Default, Clone, Debug)]
+struct Ledger {
+    received: u64,
+    sent: u64,
+    validated_at_ms: Option<u64>,
+    sends_checked: u64,
+    sends_after_validation: u64,
+    max_ratio_milli: u64,
+    first_violation: Option<Value>,
+    n_violations: u64,
+    /// largest overdraft in bytes
+    worst_over: u64,
+    last_rcv_ms: u64,
+    blocked_since_ms: Option<u64>,
+}
+
+#[derive(Clone, Debug)]
+pub struct Case {
+    pub label: String,
+    pub class: String,
+    pub spec: Spec,
+}
+
+impl Case {
+    fn to_json(&self) -> Value {
+        json!({"kind": "c15", "label": self.label, "class": self.class, "spec": self.spec.to_json()})
+    }
+    fn from_json(v: &Value) -> Case {
+        Case { label: v["label"].as_str().unwrap_or("").into(), class: v["class"].as_str().unwrap_or("replay").into(), spec: Spec::from_json(&v["spec"]) }
+    }
+}
+
+pub fn gen_case(rng: &mut Rng, seed: u64, horizon_ms: u64) -> Case {
+    let mut params = ParamCfg::default();
+    params.mtu = *rng.pick(&[1200usize, 1252, 1350, 1452, 1500]);
+    params.idle_client_ms = 120_000;
+    params.idle_server_ms = 120_000;
+    let lat = Duration::from_millis(*rng.pick(&[1u64, 10, 40, 100]));
+    let mut c2s = FaultProfile { latency: lat, ..Default::default() };
+    let mut s2c = FaultProfile { latency: lat, ..Default::default() };
+    let (label, class) = match rng.below(6) {
+        0 | 1 => {
+            let n = rng.range(1, 3);
+            c2s.mute_after = Some(n);
+            (format!("client mute after {n} datagram(s)"), "client-mute")
+        }
+        2 => {
+            s2c.dead_from = Some(Duration::ZERO);
+            ("server->client black hole (client keeps retransmitting)".to_string(), "replies-lost")
+        }
+        3 => {
+            let n = rng.range(1, 4);
+            c2s.mute_after = Some(n);
+            s2c.loss = rng.range(200, 800) as u32;
+            (format!("client mute after {n}, server->client loss {}‰", s2c.loss), "client-mute+loss")
+        }
+        4 => {
+            // client's second..k-th datagrams are lost: Handshake-bearing datagrams never arrive for a while
+            let k = rng.range(2, 12);
+            c2s.drop_ordinals = (1..k).collect();
+            (format!("client datagrams 1..{k} lost"), "handshake-acks-lost")
+        }
+        _ => {
+            c2s.loss = rng.range(300, 900) as u32;
+            s2c.loss = rng.range(0, 500) as u32;
+            (format!("heavy loss c2s {}‰ s2c {}‰", c2s.loss, s2c.loss), "heavy-loss")
+        }
+    };
+    let jobs = vec![Job { kind: JobKind::BidiEcho, size: rng.range(0, 50_000) as usize, chunk: 4096 }, Job { kind: JobKind::UniS2C, size: 200_000, chunk: 4096 }];
+    Case {
+        label: format!("{label}; mtu {}; latency {} ms", params.mtu, lat.as_millis()),
+        class: class.into(),
+        spec: Spec { seed, params, c2s, s2c, jobs, datagrams: vec![], log: LogMode::Noop, with_qlog: true, deadline: Duration::from_millis(horizon_ms), clean_close: false },
+    }
+}
+
+fn run_case(case: &Case) -> (Ledger, scenario::Outcome) {
+    let ledger = Arc::new(Mutex::new(Ledger::default()));
+    // The observers are installed by a hook run right after the net exists: scenario::run creates
+    // the SimNet itself, so we install through the global slot below.
+    let l1 = ledger.clone();
+    let l2 = ledger.clone();
+    let sa = server_addr();
+    let ca = client_addr();
+    let hook: scenario::NetHook = Box::new(move |net: &crate::sim::SimNet| {
+        let l1 = l1.clone();
+        let l2 = l2.clone();
+        net.with(|n| {
+            n.keep_log = false;
+            n.on_deliver = Some(Box::new(move |ev| {
+                if ev.dst == sa && ev.src == ca {
+                    let mut g = l1.lock().unwrap();
+                    g.received += ev.len as u64;
+                    g.last_rcv_ms = ev.t.as_millis() as u64;
+                    if g.validated_at_ms.is_none() && (ev.kinds.contains('h') || (ev.kinds.contains('i') && ev.token_len > 0)) {
+                        g.validated_at_ms = Some(ev.t.as_millis() as u64);
+                    }
+                }
+            }));
+            n.on_send = Some(Box::new(move |ev| {
+                if ev.src == sa && ev.dst == ca {
+                    let mut g = l2.lock().unwrap();
+                    if g.validated_at_ms.is_some() {
+                        g.sends_after_validation += 1;
+                        return;
+                    }
+                    g.sent += ev.len as u64;
+                    g.sends_checked += 1;
+                    if g.received > 0 {
+                        g.max_ratio_milli = g.max_ratio_milli.max(g.sent * 1000 / g.received);
+                    }
+                    if g.sent > 3 * g.received {
+                        g.n_violations += 1;
+                        g.worst_over = g.worst_over.max(g.sent - 3 * g.received);
+                        if g.first_violation.is_none() {
+                            g.first_violation = Some(json!({"t_ms": ev.t.as_millis() as u64, "sent_total": g.sent, "received_total": g.received,
+                                "this_datagram": ev.len, "kinds": ev.kinds, "server_send_ordinal": ev.ordinal, "fate": format!("{:?}", ev.fate)}));
+                        }
+                    }
+                    let _ = Fate::Deliver;
+                }
+            }));
+        });
+    });
+    let out = scenario::run_with(&case.spec, Some(hook));
+    let l = ledger.lock().unwrap().clone();
+    (l, out)
+}
+
+fn judge(rep: &mut Report, case: &Case, l: &Ledger, out: &scenario::Outcome) {
+    rep.add("server_sends_checked_before_validation", l.sends_checked);
+    rep.add("server_sends_after_validation", l.sends_after_validation);
+    rep.add("bytes_received_from_unvalidated", l.received);
+    rep.add("bytes_sent_to_unvalidated", l.sent);
+    rep.max("max_ratio_milli", l.max_ratio_milli);
+    if l.validated_at_ms.is_some() {
+        rep.count("scenarios_reaching_validation");
+    } else {
+        rep.count("scenarios_never_validated");
+    }
+    if l.received > 0 && l.sent >= 2 * l.received {
+        rep.count("scenarios_budget_over_two_thirds_used");
+    }
+    for p in &out.panics {
+        let loc = vcore::panics::short_location(&p.location);
+        rep.violation(format!("C15.panic:{loc}"), format!("panic: {} at {loc}", p.message), case.to_json());
+    }
+    if let Some(fv) = &l.first_violation {
+        rep.violation(
+            format!("C15.budget:{}", case.class),
+            format!(
+                "server sent {} bytes to an unvalidated address that had delivered {} bytes (first overdraft: {}; {} overdrawn sends, worst overdraft {} bytes) [{}]",
+                l.sent, l.received, fv, l.n_violations, l.worst_over, case.label
+            ),
+            case.to_json(),
+        );
+    }
+}
+
+pub fn run(args: &Args, rep: &mut Report) {
+    rep.rule = "scenario = hostile-client schedule (mute after n datagrams / replies lost / handshake acks lost / heavy loss) x MTU x latency; \
+                distinct = distinct (class, parameters) tuples; non-trivial = the server sent at least one datagram before the address was validated"
+        .into();
+    if let Some(path) = args.get("replay") {
+        let v: Value = serde_json::from_str(&std::fs::read_to_string(path).unwrap()).unwrap();
+        let v = if v.get("replay").is_some() { v["replay"].clone() } else { v };
+        let case = Case::from_json(&v);
+        let (l, out) = run_case(&case);
+        rep.evaluations += 1;
+        judge(rep, &case, &l, &out);
+        return;
+    }
+    let thorough = args.get("tier") == Some("thorough");
+    let shard = args.u64("shard", 0);
+    let n = args.budget(if thorough { 60 } else { 6 });
+    let horizon = args.u64("horizon-ms", if thorough { 60_000 } else { 20_000 });
+    let mut rng = Rng::new(args.seed() ^ 0xc15).fork(shard);
+    for i in 0..n {
+        let sseed = rng.next_u64();
+        let mut r = rng.fork(i);
+        let case = gen_case(&mut r, sseed, horizon);
+        let (l, out) = run_case(&case);
+        rep.evaluations += 1;
+        if l.sends_checked > 0 {
+            rep.distinct(vcore::fnv_str(&case.to_json().to_string()));
+        }
+        rep.set("classes", vcore::fnv_str(&case.class));
+        if i < 2 {
+            rep.sample(json!({"label": case.label, "received": l.received, "sent_before_validation": l.sent, "validated_at_ms": l.validated_at_ms,
+                              "server_sends_checked": l.sends_checked, "max_ratio": l.max_ratio_milli as f64 / 1000.0}));
+        }
+        judge(rep, &case, &l, &out);
+    }
 }
